@@ -357,7 +357,7 @@ PROPS.update({
         level_note='A Gallina model is total by construction and proves nothing about Rust panics; this property is decided by running the '
                    'code. Known findings: lalry panics on cyclic LALR grammars; Terminals::new panics beyond 4095 terminals.',
         technique='exploration of the real pipeline under catch_unwind (Rocq only characterises two panic guards)',
-        streams=[dict(cmd='c26', quick=2400, thorough=120000, extra=_PAR_FILES)],
+        streams=[dict(cmd='c26', quick=2400, thorough=24000, extra=_PAR_FILES)],
         rule='per case one text through the whole pipeline: 1/4 random bytes, 1/4 token soup, 1/4 valid generated EBNF (LL and LALR), 1/4 '
              '1-3 character/token mutations of repository or generated grammars; plus cyclic-grammar and 4100-terminal witnesses; '
              'non-trivial = the text reached the analysis/generation stages (valid or mutant kind); distinct = distinct case text',
